@@ -103,3 +103,66 @@ pub fn {what}_fall_through(verif_pair: &PairV, {(var if var and var != '_' else 
 
 UNITS = [VUnit("c16_reassign_path", ["C16", "C03"], "assignment paths: the parser's fall-through arms are diagnostics, not panics", build)]
 UNITS[0].assumes = ["which pairs reach the fall-through arms is the grammar's business (reassignment_expr in parentheses reaches the primary one); the named arms are unit c10_reassign"]
+
+
+# =====================================================================================================================
+# the same question for Parser::declaration (compiler/src/ast/declaration.rs): every alternative of the grammar rule `declaration` either
+# has its own arm or lands in a catch-all that is a diagnostic
+DECL = "compiler/src/ast/declaration.rs"
+
+
+def build_decl(repo):
+    import re as _re
+    src = Source(repo)
+    log = []
+    f = src.fn(DECL, "declaration", "impl Parser")
+    from vlib.extract import find_block_after, split_arms
+    body = f["body"]
+    try:
+        _, o, c = find_block_after(body, "match declaration . as_rule ( )")
+    except Exception as e:
+        raise Undecided(f"{DECL}: `match declaration.as_rule()` not found in Parser::declaration: {e}")
+    arms = split_arms(body[o + 1:c])
+    named = sorted({p[2] for p, _ in arms if len(p) == 3 and p[0] == "Rule" and p[1] == "::"})
+    catch = next(((p[0], b) for p, b in arms if len(p) == 1 and not p[0].startswith("Rule")), None)
+    g = (Path(repo) / "compiler/src/grammar.pest").read_text()
+    m = _re.search(r"^declaration\s*=\s*_?\{([^}]*)\}", g, _re.M)
+    if not m:
+        raise Undecided("grammar.pest: rule declaration not found")
+    alts = sorted(x.strip() for x in m.group(1).split("|"))
+    unnamed = [a for a in alts if a not in named]
+    log.append(("R0", "grammar.pest: declaration = " + " | ".join(alts), "alternatives without an arm of their own: " + (", ".join(unnamed) or "none"), "what can reach the catch-all arm of Parser::declaration"))
+    if catch is None:
+        arm_txt, var = "Err(errs1(diag(verif_pair, user_data)))", "verif_x"
+    else:
+        var, arm = catch
+        b = translate(list(arm), [
+            Rule("R8", "unimplemented ! $a", "{ vpanic ( ) ; return Err ( errs1 ( diag ( verif_pair , user_data ) ) ) }", why="unimplemented!: a compiler panic (R8)"),
+            Rule("R8", "unreachable ! $a", "{ vpanic ( ) ; return Err ( errs1 ( diag ( verif_pair , user_data ) ) ) }", why="unreachable!: a compiler panic (R8)"),
+            Rule("R8", "todo ! $a", "{ vpanic ( ) ; return Err ( errs1 ( diag ( verif_pair , user_data ) ) ) }", why="todo!: a compiler panic (R8)"),
+            Rule("R8", "panic ! $a", "{ vpanic ( ) ; return Err ( errs1 ( diag ( verif_pair , user_data ) ) ) }", why="panic! (R8)"),
+            Rule("R3", "return Err ( vec ! [ new_err ( $$a ) ] )", "return Err ( errs1 ( diag ( verif_pair , user_data ) ) )", why="a diagnostic (its text is dropped)"),
+            Rule("R3", "Err ( vec ! [ new_err ( $$a ) ] ) ?", "return Err ( errs1 ( diag ( verif_pair , user_data ) ) )", why="a diagnostic (its text is dropped)"),
+            Rule("R3", "Err ( vec ! [ new_err ( $$a ) ] )", "return Err ( errs1 ( diag ( verif_pair , user_data ) ) )", why="a diagnostic (its text is dropped)"),
+        ], log, "Parser::declaration[catch-all]")
+        check_closed(b, "Parser::declaration[catch-all]")
+        arm_txt = render(b, 1)
+        if var == "_":
+            var = "verif_x"
+    gen = header(log, f"{DECL}: Parser::declaration, the catch-all arm") + SPEC + f"""
+//@ OBL C16.declaration.total
+// the arm that takes every statement kind without an arm of its own ({', '.join(unnamed) or 'none: unreachable'}): a diagnostic, never a compiler panic
+pub fn declaration_fall_through(verif_pair: &PairV, {var}: RuleV, user_data: &UserData) -> (r: Result<(PathV, SpanV, bool), Vec<VErr>>)
+    requires {'true' if unnamed else 'false'},
+    ensures r is Err,
+{{
+{arm_txt}
+}}
+}} // verus!
+fn main() {{}}
+"""
+    return gen, [Obl("C16.declaration.total", ["C16", "C03"], fn="declaration_fall_through", desc="Parser::declaration: a statement kind the grammar allows but no arm names is answered with a diagnostic (no unreachable!)")], log
+
+
+UNITS.append(VUnit("c16_declaration", ["C16", "C03"], "statements: the catch-all arm of Parser::declaration is a diagnostic", build_decl))
+UNITS[-1].assumes = ["the alternatives of `declaration` are read from grammar.pest on every run"]
